@@ -217,6 +217,42 @@ def _parent_walkers(ctx, oc, lock):
     return out
 
 
+def _children_writer_by_interpretation(ctx, m, upd):
+    """Interpret a method of the function class that links mixins (add_mixins) on two mixins and the function itself:
+    -> list of problems, or None when the method is not of that shape / not interpretable."""
+    from ..metainterp import HostFn, HostInterp, Raised, Record
+
+    rv = recv_name(m)
+    if m.node.args.vararg is None or len(m.node.args.args) != 1:
+        return None
+    guard = A.guard_method(ctx.repo)
+    problems = []
+    for linkback in (True, False):
+        m1, m2 = Record(children=[], name="m1"), Record(children=[], name="m2")
+        log = []
+        me = Record(linkback=linkback, mixins=[], children=[], name="me")
+        setattr(me, upd.name, HostFn(lambda *a: log.append("update")))
+        setattr(me, guard.name, HostFn(lambda *a: log.append("guard")))
+        conv = {f.name: (lambda x: x) for f in m.module.funcs.values() if f.parent is None and f.cls is None and len(f.params) == 1}
+        hi = HostInterp({}, me, {}, globals_env=dict(conv), classes={}, functions={})
+        try:
+            hi.call_function(m.node, [me, m1, me, m2], {}, {})
+        except (AnalysisError, Raised, TypeError, AttributeError):
+            return None
+        tag = "with linkback" if linkback else "without linkback"
+        if [x for x in me.mixins] != [m1, m2]:
+            problems.append(f"{tag} the mixin list becomes {[getattr(x, 'name', x) for x in me.mixins]} after adding m1, the function itself and m2")
+        want = [me] if linkback else []
+        for mx in (m1, m2):
+            if mx.children != want:
+                problems.append(f"{tag} {mx.name}.children is {[getattr(x, 'name', x) for x in mx.children]}")
+        if me.children:
+            problems.append(f"{tag} the function is recorded as its own child")
+        if log[-1:] != ["update"] or log.count("update") != 1:
+            problems.append(f"{tag} the update method is not run once, last (calls: {log})")
+    return problems
+
+
 def r3_linkback(ctx):
     repo = ctx.repo
     oc = A.function_class(repo)
@@ -243,7 +279,26 @@ def r3_linkback(ctx):
         ctx.ob(f"{oc.key}:no-children-writer", oc.loc(), "a derivation created with linkback records the child in its parents' `children`", False, "nothing ever appends to `children`: linkback derivations are never registered with their ancestors, so later changes to the ancestor do not show up in the child")
     from .common import enclosing_loops, path_atoms
 
+    by_interp = {}
     for m, call in writers:
+        if m.key not in by_interp:
+            by_interp[m.key] = _children_writer_by_interpretation(ctx, m, upd)
+    done = set()
+    for m, call in writers:
+        if by_interp.get(m.key) is not None and m.key not in done:
+            done.add(m.key)
+            problems = by_interp[m.key]
+            ctx.touch(m)
+            ctx.ob(
+                f"{m.key}:children-writer",
+                m.loc(call),
+                "every added mixin (the function itself excepted) joins the mixin list and records the child in its `children` exactly when linkback is set (interpreted with and without linkback)",
+                not problems,
+                "; ".join(problems[:2]) + ": updates of a linked ancestor do not reach the child (or reach functions that were not linked)",
+            )
+    for m, call in writers:
+        if m.key in done:
+            continue
         ctx.touch(m)
         rv = recv_name(m)
         parent_var = dotted(call.func.value.value)
@@ -255,6 +310,11 @@ def r3_linkback(ctx):
             if isinstance(n, ast.Call) and isinstance(n.func, ast.Attribute) and n.func.attr in ("extend",) and is_self_attr(n.func.value, "mixins", selfname=rv) and n.args:
                 added = dotted(n.args[0])
         ok = bool(loops) and added is not None and dotted(iter_base(loops[0].iter)) == added
+        if loops and not ok:
+            # the mixin is appended to the list one at a time in the loop that links it
+            for n in ast.walk(loops[0]):
+                if isinstance(n, ast.Call) and isinstance(n.func, ast.Attribute) and n.func.attr == "append" and is_self_attr(n.func.value, "mixins", selfname=rv) and len(n.args) == 1 and dotted(n.args[0]) == parent_var:
+                    ok = True
         # the only condition on the way to the registration is the linkback flag
         conds = path_atoms(m.node, call)
         cond_ok = len(conds) == 1 and conds[0][0] == "truthy" and is_self_attr(conds[0][1], "linkback", selfname=rv)
@@ -426,6 +486,13 @@ def merged_view(ctx, rd):
     m1 = Record(defns={"s1": "mixin1:s1", "s2": "mixin1:s2", "s5": "mixin1:s5"}, _defns={})
     m2 = Record(defns={"s2": "mixin2:s2", "s3": "mixin2:s3", "s5": "mixin2:s5"}, _defns={})
     me = Record(mixins=[m1, m2], _defns={"s3": "own:s3", "s4": "own:s4", "s5": "own:s5"}, children=[], linkback=False)
+    # whatever else the constructor initialises with a literal (a change may add such attributes)
+    init = rd.cls.methods.get("__init__") if rd.cls is not None else None
+    if init is not None:
+        rvi = recv_name(init)
+        for st in ast.walk(init.node):
+            if isinstance(st, ast.Assign) and len(st.targets) == 1 and is_self_attr(st.targets[0], selfname=rvi) and isinstance(st.value, ast.Constant) and not hasattr(me, st.targets[0].attr):
+                setattr(me, st.targets[0].attr, st.value.value)
     want = {"s1": "mixin1:s1", "s2": "mixin2:s2", "s3": "own:s3", "s4": "own:s4", "s5": "own:s5"}
     interpreted = True
     try:
@@ -464,6 +531,68 @@ def merged_view(ctx, rd):
         "the effective table overlays the own definitions after all inherited ones",
         ok,
         "inherited definitions are applied after the own ones: a parent's method replaces the child's override of identical signature",
+    )
+
+
+def merged_view_is_current(ctx, rd):
+    """Interpret the reader of the effective definitions on a chain base -> mid -> leaf made without linkback (the
+    objects are interpreted instances of the function class; their initial attributes are the constructor's literal
+    assignments): after base's own table changed (and base ran its update method), reading leaf's effective table
+    again shows the change."""
+    from ..metainterp import HostInterp, Instance, Raised, Record
+
+    repo = ctx.repo
+    oc = A.function_class(repo)
+    upd = A.update_method(repo)
+    b = A.build_method(repo)
+    raw = repo.raw_methods(oc)
+    init = raw.get("__init__")
+    literals = {}
+    if init is not None:
+        rvi = init.args.args[0].arg
+        for st in ast.walk(init):
+            if isinstance(st, ast.Assign) and len(st.targets) == 1 and is_self_attr(st.targets[0], selfname=rvi):
+                v = st.value
+                if isinstance(v, ast.Constant):
+                    literals[st.targets[0].attr] = ("const", v.value)
+                elif isinstance(v, (ast.Dict, ast.List, ast.Set)) and not (getattr(v, "keys", None) or getattr(v, "elts", None)):
+                    literals[st.targets[0].attr] = ("empty", type(v).__name__)
+
+    def make(label, mixins, own):
+        o = Instance(oc.name, raw)
+        for k, (kind, v) in literals.items():
+            o.__dict__[k] = v if kind == "const" else {"Dict": dict, "List": list, "Set": set}[v]()
+        o.__dict__.update(mixins=list(mixins), _defns=dict(own), children=[], linkback=False, _compiled=False, _locked=False, name=label)
+        return o
+
+    base = make("base", [], {"s1": "base:s1"})
+    mid = make("mid", [base], {"s2": "mid:s2"})
+    leaf = make("leaf", [mid], {})
+    funcs = {n: g.node for n, g in oc.module.funcs.items() if g.parent is None and g.cls is None and not g.node.decorator_list}
+    hi = HostInterp(raw, leaf, {}, globals_env={}, classes={}, functions=funcs)
+    is_prop = any(isinstance(d, ast.Name) and d.id in ("property", "cached_property") for d in rd.node.decorator_list)
+
+    def read(o):
+        return dict(hi.call_function(raw[rd.name], [o], {}, {}))
+
+    try:
+        first = read(leaf)
+        read(mid)
+        # base changes its own table the way registration / removal do, and runs its update method
+        del base.__dict__["_defns"]["s1"]
+        base.__dict__["_defns"]["s9"] = "base:s9"
+        base.__dict__[b.name] = lambda *a, **k: None
+        hi.call_function(raw[upd.name], [base], {}, {})
+        second = read(leaf)
+    except (AnalysisError, Raised, TypeError, AttributeError, KeyError) as e:
+        raise AnalysisError(f"{rd.key}: chain reading not interpretable: {e}")
+    want1, want2 = {"s1": "base:s1", "s2": "mid:s2"}, {"s9": "base:s9", "s2": "mid:s2"}
+    ctx.ob(
+        f"{rd.key}:current",
+        rd.loc(),
+        "the effective table of a derived function reflects its ancestors' current tables on every read, also two levels up and without linkback (interpreted on base -> mid -> leaf)",
+        first == want1 and second == want2,
+        f"after base dropped s1 and added s9 (and ran {upd.name}()), leaf's effective table reads {second!r} instead of {want2!r}: a derived function that is put to use after its ancestor changed dispatches over the ancestor's old method set" if first == want1 else f"leaf's effective table reads {first!r}, expected {want1!r}",
     )
 
 
